@@ -8,11 +8,12 @@
 # except the warm target directory (MUTANT_KEEP=0 removes that too).
 set -u
 PATCH="${1:?patch}"; TIER="${2:?tier}"; shift 2
-WT=/tmp/pvc-mutant/repo
-HC=/tmp/pvc-mutant/harness
-OUT=/tmp/pvc-mutant/out
-TGT=/tmp/pvc-mutant/target
-mkdir -p /tmp/pvc-mutant
+BASE="${MUTANT_DIR:-/tmp/pvc-mutant}"   # scratch location (several runs in parallel need different ones)
+WT=$BASE/repo
+HC=$BASE/harness
+OUT=$BASE/out
+TGT=$BASE/target
+mkdir -p "$BASE"
 git -C /repo worktree remove --force "$WT" >/dev/null 2>&1
 rm -rf "$WT" "$HC" "$OUT"
 git -C /repo worktree prune
@@ -49,5 +50,5 @@ for ID in "$@"; do
 done
 git -C /repo worktree remove --force "$WT" >/dev/null 2>&1
 rm -rf "$HC"
-[ "${MUTANT_KEEP:-1}" = "0" ] && rm -rf /tmp/pvc-mutant
+[ "${MUTANT_KEEP:-1}" = "0" ] && rm -rf "$BASE"
 exit $RC
